@@ -32,13 +32,7 @@ Definition c15_csv_migration_crash_safe_statement : Prop :=
 (* witness: `tally up --migrate`, crash after "move CSV to .bak" (4 steps done), before the append to
    settings.yaml: no rules in force, .bak and merchants.rules on disk, re-running changes nothing *)
 Theorem c15_csv_migration_crash_safe_refuted : ~ c15_csv_migration_crash_safe_statement.
-Proof.
-  intro H. specialize (H Ow Up (Some "s") "c" None None "d" 4 0).
-  assert (P1 : csv_pre Ow Up (Some "s") "c" None) by reflexivity.
-  assert (P2 : yaml_laws Ow (Some "s") "c") by (vm_compute; repeat split; intros; reflexivity).
-  specialize (H P1 P2). vm_compute in H.
-  destruct H as (_ & [H|H] & _); discriminate H.
-Qed.
+Proof. exact csv_crash_refuted. Qed.
 Print Assumptions c15_csv_migration_crash_safe_refuted.
 
 Theorem c15_csv_migration_crash_safe_partial :
@@ -67,14 +61,7 @@ Definition c15_csv_migration_fault_safe_statement : Prop :=
 (* witness: `tally up --migrate`, the open(settings.yaml, 'a') (step 4) raises: this run and every later
    run classify with no rules *)
 Theorem c15_csv_migration_fault_safe_refuted : ~ c15_csv_migration_fault_safe_statement.
-Proof.
-  intro H. specialize (H Ow Up (Some "s") "c" None None "d" 4 0).
-  assert (P1 : csv_pre Ow Up (Some "s") "c" None) by reflexivity.
-  assert (P2 : yaml_laws Ow (Some "s") "c") by (vm_compute; repeat split; intros; reflexivity).
-  specialize (H P1 P2). vm_compute in H.
-  assert (L : 4 < 8) by (repeat constructor).
-  destruct (H L) as ((_ & [X|X] & _) & _); discriminate X.
-Qed.
+Proof. exact csv_fault_refuted. Qed.
 Print Assumptions c15_csv_migration_fault_safe_refuted.
 
 Theorem c15_csv_migration_fault_safe_partial :
@@ -94,13 +81,13 @@ Print Assumptions c15_csv_migration_fault_safe_partial.
 Theorem c15_csv_existing_backup_overwritten :
   let f0 := csv_budget (Some "s") "c" (Some "b") None "d" in
   no_loss f0 (crash (mig_ops Ow Up f0 []) 4 0 f0) = false.
-Proof. vm_compute. reflexivity. Qed.
+Proof. exact w_backup_overwritten. Qed.
 Print Assumptions c15_csv_existing_backup_overwritten.
 
 Theorem c15_csv_existing_rules_overwritten :
   let f0 := csv_budget (Some "s") "c" None (Some "r") "d" in
   no_loss f0 (crash (mig_ops Ow Up f0 []) 1 0 f0) = false.
-Proof. vm_compute. reflexivity. Qed.
+Proof. exact w_rules_overwritten. Qed.
 Print Assumptions c15_csv_existing_rules_overwritten.
 
 (* a failed run that has already moved the CSV goes on with an empty rule set (here: close() of
@@ -109,15 +96,11 @@ Theorem c15_csv_failed_run_uses_moved_csv :
   let f0 := csv_budget (Some "s") "c" None None "d" in
   let g := crash (mig_ops Ow Up f0 []) 7 0 f0 in
   stranded Ow "c" (up_inrun_after_fault g cd0) g = true /\ resolve Ow g cd0 = INew "K".
-Proof. vm_compute. split; reflexivity. Qed.
+Proof. exact w_failed_run_uses_moved_csv. Qed.
 Print Assumptions c15_csv_failed_run_uses_moved_csv.
 
 (* ------------------------------------------------------------------------------------------------ *)
 (* folder-layout migration                                                                            *)
-Definition layout_pre (O : oracle) (s0 : string) (tc : option (string * string)) : Prop :=
-  mf O s0 = MfKey [Aconfig; Arules] /\
-  match tc with Some (s1, _) => mf O s1 = MfKey [Aconfig; Arules] | None => True end.
-
 Definition c15_layout_migration_crash_safe_statement : Prop :=
   forall (O : oracle) (s0 r0 : string) (d rep : option string) (t : bool) (tc : option (string * string)) (td : bool)
          (k n : nat),
@@ -131,12 +114,7 @@ Definition c15_layout_migration_crash_safe_statement : Prop :=
    budget is found at ./tally/config, its statement files are still under ./data, and `tally update`
    no longer migrates (the config directory is not ./config any more) *)
 Theorem c15_layout_migration_crash_safe_refuted : ~ c15_layout_migration_crash_safe_statement.
-Proof.
-  intro H. specialize (H Ow "n" "r" (Some "d") None false None false 2 0).
-  assert (P : layout_pre Ow "n" None) by (split; reflexivity).
-  specialize (H P). vm_compute in H.
-  destruct H as (_ & [X|X] & _); discriminate X.
-Qed.
+Proof. exact layout_crash_refuted. Qed.
 Print Assumptions c15_layout_migration_crash_safe_refuted.
 
 Theorem c15_layout_migration_crash_safe_partial :
@@ -163,13 +141,7 @@ Definition c15_layout_migration_fault_safe_statement : Prop :=
     layout_safe O f0 f1 f2 r0.
 
 Theorem c15_layout_migration_fault_safe_refuted : ~ c15_layout_migration_fault_safe_statement.
-Proof.
-  intro H. specialize (H Ow "n" "r" (Some "d") None false None false 2 0).
-  assert (P : layout_pre Ow "n" None) by (split; reflexivity).
-  specialize (H P). vm_compute in H.
-  assert (L : 2 < 6) by (repeat constructor).
-  destruct (H L) as (_ & [X|X] & _); discriminate X.
-Qed.
+Proof. exact layout_fault_refuted. Qed.
 Print Assumptions c15_layout_migration_fault_safe_refuted.
 
 Theorem c15_layout_migration_fault_safe_partial :
@@ -181,7 +153,7 @@ Theorem c15_layout_migration_fault_safe_partial :
     let f1 := crash (update_ops O f0) k n f0 in
     let f2 := update_rerun O f1 in
     content_kept f0 f1 f2 /\ (layout_guard d tc td k = true -> layout_rules_safe O f0 f1 f2 r0).
-Proof. intros O s0 r0 d rep t tc td k n Hmf f0 _. exact (layout_crash_partial O s0 r0 d rep t tc td k n Hmf). Qed.
+Proof. exact layout_fault_partial. Qed.
 Print Assumptions c15_layout_migration_fault_safe_partial.
 
 (* an existing ./tally/config (another budget) makes even the completed migration nest the user's
@@ -191,7 +163,7 @@ Theorem c15_layout_existing_target_nests :
   let f1 := crash (update_ops Ow f0) 9 0 f0 in
   fst (resolve_layout Ow f0) = INew "r" /\ fst (resolve_layout Ow f1) = INew "q" /\
   content_at f1 [Atally; Aconfig; Aconfig; Arules] = Some "r".
-Proof. vm_compute. repeat split; reflexivity. Qed.
+Proof. exact w_layout_nests. Qed.
 Print Assumptions c15_layout_existing_target_nests.
 
 (* ------------------------------------------------------------------------------------------------ *)
